@@ -284,6 +284,8 @@ class SqlalchemyRender:
             col = ~sub_stmt.exists()
         elif isinstance(t, ast.Case):
             col = self.prepare_case(t)
+            if t.alias:
+                col = col.label(self.get_alias(t.alias))
         else:
             # some other complex object?
             raise NotImplementedError(f'Column {t}')
